@@ -98,6 +98,13 @@ def values_only_canon(root):
   return strip(eq_canon(root))
 
 
+def count_identities(root) -> int:
+  return sum(1 for x in c02.reachable(root)
+             if common.own_memoizable(x) and not common.own_internable(x)
+             and not isinstance(x, type) and not (callable(x) and hasattr(x, "__qualname__")
+                                                  and not isinstance(x, config_lib.Buildable)))
+
+
 def safe_eq(a, b):
   try:
     return ("ok", a == b)
@@ -278,15 +285,29 @@ def replace_everywhere(root, old, new) -> bool:
   return bool(slots)
 
 
+def identity_tuples(root):
+  """Tuples that have an identity for Fiddle: NamedTuples, and tuples that hold a mutable object."""
+  return [x for x in c02.reachable(root) if isinstance(x, tuple) and common.own_memoizable(x)
+          and not common.own_internable(x)]
+
+
+def fresh_copy(t):
+  if isinstance(t, tuple) and hasattr(t, "_fields"):
+    return type(t)(*[copy.deepcopy(e) for e in t])
+  if type(t) is tuple:
+    return tuple([copy.deepcopy(e) for e in t])
+  return copy.deepcopy(t)
+
+
 def alias_rewrite(rng, b, kind):
-  nodes = [x for x in mutable_nodes(b) if x is not b]
+  nodes = [x for x in mutable_nodes(b) + identity_tuples(b) if x is not b]
   if kind == "alias_break":
     shared = [x for x in nodes if len(slots_holding(b, x)) >= 2]
     if not shared:
       return None
     t = rng.choice(shared)
     x, k = rng.choice(slots_holding(b, t))
-    set_slot(x, k, copy.deepcopy(t))
+    set_slot(x, k, fresh_copy(t))
     return b
   if kind == "alias_create":
     # two distinct but equal objects -> make them one
@@ -323,6 +344,55 @@ def directed_alias_pair(rng):
   A2, B2 = f(), f()
   b = fdl.Config(l2.fd, x=A2, y=B2, z=B2)
   return a, b
+
+
+def directed_namedtuple_pairs(rng):
+  """A NamedTuple has an identity even when all its fields are constants: one NamedTuple referenced twice
+  and two equal NamedTuples build graphs that differ in sharing."""
+  out = []
+  for wrap in (lambda v: v, lambda v: [v], lambda v: {"k": v}, lambda v: (v, [0])):
+    mk = lambda: rng.choice([lambda: l2.NT(1, "a"), lambda: l2.NTSub(2, (3, 4)), lambda: l2.NT((), None)])
+    f = mk()
+    t = f()
+    a = fdl.Config(l2.fd, x=wrap(t), y=t)
+    b = fdl.Config(l2.fd, x=wrap(f()), y=f())
+    c = fdl.Config(l2.fd, x=wrap(t), y=copy.deepcopy(a).y)
+    out += [(a, b, "namedtuple_unshared", False), (a, copy.deepcopy(a), "namedtuple_shared_copy", True),
+            (b, copy.deepcopy(b), "namedtuple_unshared_copy", True), (a, c, "namedtuple_unshared_one_side", False)]
+  return out
+
+
+class Sentinel:
+  """Compared by identity."""
+
+  def __repr__(self):
+    return "<Sentinel>"
+
+
+_UNSET = Sentinel()
+_MARK = object()
+
+
+def fs(x=_UNSET, y=_MARK, *, z=_UNSET):
+  return l2._rec("fs", locals())  # pylint: disable=protected-access
+
+
+def identity_default_triples():
+  """Defaults that are compared by identity (sentinel objects): unset, explicitly set to the default, and
+  copies of either must all be equal."""
+  out = []
+  for mk in (lambda: fdl.Config(fs), lambda: fdl.Config(l2.fd, x=[fdl.Config(fs)], y=fdl.Partial(fs, 1))):
+    plain = mk()
+    explicit = mk()
+    for t in c02.reachable(explicit):
+      if isinstance(t, config_lib.Buildable) and t.__fn_or_cls__ is fs:
+        t.z = _UNSET
+        if "x" not in t.__arguments__:
+          t.x = _UNSET
+    # (a deep copy of `explicit` is NOT in the group: deepcopy clones the sentinel argument itself, and the
+    # clone is a different value for a callable that tests `x is _UNSET`)
+    out.append((plain, explicit, copy.deepcopy(plain), copy.copy(explicit), copy.copy(plain)))
+  return out
 
 
 def complementary_defaults_pair(rng, base):
@@ -392,7 +462,11 @@ def check_pair(res, intern, stream, a, b, kind, expected, label):
     if r_ab[1] != truth:
       if r_ab[1] and values_only_canon(a) == values_only_canon(b):
         problems.append("== is True although the sharing structure differs (builds differ in sharing)")
-        key = KNOWN_ALIAS
+        # the known finding: == compares the first-visit paths of the objects, so it cannot see WHICH of
+        # several equal objects a later reference points to.  It still counts the objects: a pair that
+        # differs in the NUMBER of objects is not that finding.
+        if count_identities(a) == count_identities(b):
+          key = KNOWN_ALIAS
       elif r_ab[1]:
         problems.append("== is True for configurations that differ")
         if nt_as_tuple(eq_canon(a)) == nt_as_tuple(eq_canon(b)):
@@ -497,6 +571,14 @@ def run(tier: str, seed: int) -> Result:
   for i in range(3):
     a, b = directed_alias_pair(rng)
     check_pair(res, intern, stream, a, b, "alias_redirect_directed", False, f"directed#{i}")
+  for j, (a, b, kind, expected) in enumerate(directed_namedtuple_pairs(rng)):
+    check_pair(res, intern, stream, a, b, kind, expected, f"namedtuple#{j}")
+  for j, group in enumerate(identity_default_triples()):
+    for u in range(len(group)):
+      for v in range(len(group)):
+        if u != v:
+          check_pair(res, intern, stream, group[u], group[v], "identity_compared_default", True,
+                     f"identity-default#{j}[{u},{v}]")
   # mixed-type dict keys must not make == raise
   a = fdl.Config(l2.fa, {1: [0], "a": [1]})
   check_pair(res, intern, stream, a, copy.deepcopy(a), "mixed_keys", True, "mixed-keys")
